@@ -295,7 +295,7 @@ def run(ctx: Ctx) -> int:
     rng = ctx.rng
     common.standard_trusted_base(ctx, [
         "coq/Model/A1.v + Props/C10.v (a1_roundtrip) supply the A1 half of a1_same_cell",
-        "set_cell_style / set_cell_formatting / set_cell_border reach the table through the same _validate_cell_coords entry as write; that they do is checked by the implementation-only oracle (A1 form vs row/col form on twin documents), the model covers cell() and write()",
+        "tools/gen_c11.py (AST translator of Table._validate_cell_coords: guards, growth loops, first statement of every *args method; fail closed) - set_cell_style / set_cell_formatting / set_cell_border are shown by gen_position_methods to enter through the translated validation and are exercised by the implementation-only oracle (A1 form vs row/col form on twin documents); the executable model covers cell() and write()",
     ])
     ctx.extra["rule"] = ("positions with row in {-3..3, n-2..n+2} (+ {255..257, 999998..1000001} on one table) and column in {-3..3, n-2..n+2} (+ {255..257, 998..1001}) "
                          "x A1 forms (plain, $-forms) x {cell, write, set_cell_style, set_cell_formatting, set_cell_border} x table sizes 1x1, 4x3, 12x8; "
